@@ -132,7 +132,7 @@ func checkC04(p *Program, r *Result) {
 		"— so the unrestricted default excludes no timestamp — and the two iterators agree; " +
 		"(C04.b) the condition under which the summary pass keeps a chunk index is implied by exact overlap of [chunk start, chunk end] with the window (it may be weaker, never stronger); " +
 		"(C04.d) every exported read option stores into a ReadOptions field that the iterator constructors actually read; " +
-		"(C04.e) both iterators admit a channel iff no topics were given or its topic is in the set; (C04.f) the Reader's cached Info is never mutated by a later read. " +
+		"(C04.e) both iterators admit a channel iff no topics were given or its topic is in the set; (C04.f) the Reader's cached Info is never mutated by a later read; (C04.g) ReadOptions.Finalize, which runs after the caller's options and so cannot tell unset from explicitly set, writes nothing but the deprecated companion field into a window bound. " +
 		"Predicates are taken from the typed AST, helper predicates are inlined, and formulas are compared by enumerating orderings of the compared terms (no code is run)."
 	r.NotDecided = []string{"equality with the filtered full read on concrete files (run-time)"}
 	r.rule("C04.a", "yield condition == start <= t && (t < end || end == MAX), same in both iterators", 2)
@@ -140,6 +140,8 @@ func checkC04(p *Program, r *Result) {
 	r.rule("C04.d", "every read option reaches the iterator", 6)
 	r.rule("C04.e", "topic filter is the same in both iterators", 2)
 	r.rule("C04.f", "cached Info is read-only", 1)
+	r.rule("C04.g", "Finalize only copies deprecated companions into window fields", 1)
+	checkFinalizeStores(p, r)
 
 	g := newGoLayouts(p, pkgMcap)
 	fc := &formCtx{g: g}
